@@ -24,7 +24,8 @@ import (
 	"strings"
 	"sync"
 	"syscall"
-	"time"
+
+	"github.com/tuneinsight/lattigo/v6/utils/buffer"
 )
 
 // batch: jobs about one object. Ref (the reference encoding the decode jobs cut and patch) travels with the
@@ -74,7 +75,7 @@ type result struct {
 	Tripped   bool // the no-progress tripwire fired (would be a stack overflow with a real buffer.Buffer)
 	AllocPan  bool
 	Alloc     uint64 // bytes allocated (for an out-of-memory death: the size of the refused request)
-	AllocSite string // function that made the largest allocation, when Alloc is above the limit
+	AllocSite string // decoder function that made an over-the-limit allocation (from a traced repetition of the decode)
 	N         int64
 	// verdict of judge() for "frag"
 	VKind, VMsg string
@@ -82,16 +83,13 @@ type result struct {
 	Invalid, InvalidMsg string // "" = valid (or not checked)
 	// "comps": signature subjects of the components
 	Names []string
+	// "owners": which decoder function consumed which bytes of the valid encoding
+	Owners []ownerSeg
 }
 
 func (r result) ok() bool { return !r.NotRun && r.Fatal == "" && r.Err == "" && r.Panic == "" }
 
 const maxEvents = 3 // see runJobs
-
-// hangAfter: a helper that has not answered one job for this long is declared hung and killed. Generous: on a
-// machine shared with fifteen other checks a parameter-set decode (factoring q-1 for dozens of primes) has been
-// seen to take tens of seconds of wall time, and a premature verdict would not be reproducible.
-const hangAfter = 5 * time.Minute
 
 func fillOutcome(r *result, o outcome) {
 	if o.err != nil {
@@ -150,6 +148,11 @@ func execJob(b *batch, j job) (r result) {
 		v, out := fragRunObj(ee, obj, wbin, j.Buf, j.chunk())
 		fillOutcome(&r, out)
 		r.VKind, r.VMsg = v.kind, v.msg
+	case "owners":
+		d := decoderByName(j.Decoder)
+		if b.Tripwire || d.method == "ReadFrom" {
+			_, r.Owners = traceDecode(d, e.zero(), b.Ref, 0, true)
+		}
 	case "comps":
 		for _, c := range components(resolvePath(original(b.Seed, e, b.Vi).obj, j.Path)) {
 			r.Names = append(r.Names, declName(c.ptr, "ReadFrom"))
@@ -167,8 +170,11 @@ func execJob(b *batch, j job) (r result) {
 		n, out := decodeFault(d, recv, data, b.Tripwire)
 		fillOutcome(&r, out)
 		r.N = n
-		if r.Alloc > allocLimit(len(b.Ref)) {
-			r.AllocSite = bigAllocSite()
+		if r.Alloc > allocLimit(len(b.Ref)) && (b.Tripwire || d.method == "ReadFrom") {
+			// which decoder made the giant allocation: repeat the decode under a tracing reader (deterministic)
+			runtime.GC()
+			debug.FreeOSMemory()
+			r.AllocSite, _ = traceDecode(d, e.zero(), data, allocLimit(len(b.Ref)), false)
 		}
 		if j.Check && r.ok() {
 			r.Invalid, r.InvalidMsg = validity(e, d, recv, b.Tripwire)
@@ -200,64 +206,31 @@ func validity(e *entry, d decoder, recv any, tripwire bool) (kind, msg string) {
 	return "", ""
 }
 
-// bigAllocSite names the library function that allocated the most since the previous call, from the heap
-// profile (MemProfileRate is 1 MiB in the helper, so every allocation of tens of MiB has a record; records become
-// visible after garbage collections).
-var allocSeen = map[[32]uintptr][2]int64{}
-
-func bigAllocSite() string {
-	for attempt := 0; attempt < 12; attempt++ {
-		runtime.GC() // the heap profile lags allocation by up to two completed collection cycles
-		runtime.GC()
-		runtime.GC()
-		if site, ok := bigAllocSiteOnce(); ok {
-			return site
-		}
+// traceDecode repeats a decode of `data` through a traceReader (same library code path as the decoder: ReadFrom;
+// UnmarshalBinary is ReadFrom on a buffer.Buffer) and returns what the trace establishes: the function that made
+// an over-the-limit allocation (limit>0), and/or which function consumed which bytes (record).
+func traceDecode(d decoder, recv any, data []byte, limit uint64, record bool) (site string, segs []ownerSeg) {
+	rf, ok := recv.(io.ReaderFrom)
+	if !ok || d.json {
+		return "", nil
 	}
-	return ""
-}
-
-func bigAllocSiteOnce() (string, bool) {
-	n, _ := runtime.MemProfile(nil, true)
-	recs := make([]runtime.MemProfileRecord, n+256)
-	n, ok := runtime.MemProfile(recs, true)
-	if !ok {
-		return "", false
+	var under buffer.Reader = buffer.NewBuffer(data)
+	if d.name == "ReadFrom(bufio.Reader)" || d.name == "ReadFrom(io.Reader)" {
+		under = bufio.NewReader(bytes.NewReader(data))
 	}
-	// the call stack whose allocations since the previous look were individually huge (>= 32 MiB per object on
-	// average: the harmless 2^19 probes of other fields, a dozen MiB each, do not qualify), largest total first
-	best, bestDelta := -1, int64(0)
-	for i := 0; i < n; i++ {
-		prev := allocSeen[recs[i].Stack0]
-		db, do := recs[i].AllocBytes-prev[0], recs[i].AllocObjects-prev[1]
-		if do > 0 && db/do >= 32<<20 && db > bestDelta {
-			best, bestDelta = i, db
-		}
+	t := newTraceReader(under, limit, record)
+	o := guard(func() (err error) { _, err = rf.ReadFrom(t); return })
+	if ev, ok := o.panicked.(allocEvent); ok {
+		site = ev.site
 	}
-	if best < 0 {
-		return "", false // not published yet: look again (nothing is marked as seen)
-	}
-	for i := 0; i < n; i++ {
-		allocSeen[recs[i].Stack0] = [2]int64{recs[i].AllocBytes, recs[i].AllocObjects}
-	}
-	frames := runtime.CallersFrames(recs[best].Stack())
-	for {
-		f, more := frames.Next()
-		if strings.Contains(f.Function, "tuneinsight/lattigo") {
-			return normFunc(f.Function), true
-		}
-		if !more {
-			return "", true
-		}
-	}
+	return site, t.segs
 }
 
 // ---------------------------------------------------------------------------------------------
 // helper process side
 
 func childMain() {
-	runtime.MemProfileRate = 1 << 20 // every allocation of tens of MiB is recorded with its call stack (bigAllocSite)
-	debug.SetMaxStack(8 << 20)       // a runaway recursion ends in milliseconds
+	debug.SetMaxStack(8 << 20) // a runaway recursion ends in milliseconds
 	// A mis-framed stream makes decoders allocate whatever a garbage length says. Below the limit that is a
 	// slow page-faulting multi-GiB allocation, above it an immediate "fatal error: out of memory": keep the
 	// limit low so that the outcome is quick either way. (A go1.23 process reserves ~1.3 GiB of address space
@@ -433,21 +406,11 @@ func runJobs(hdr batch, jobs []job) []result {
 		}
 		go func() { _, _ = h.stdin.Write(append(b, '\n')) }()
 		for got := 0; got < len(pending); got++ {
-			type lineRes struct {
-				b   []byte
-				err error
-			}
-			ch := make(chan lineRes, 1)
-			go func() { l, err := h.stdout.ReadBytes('\n'); ch <- lineRes{l, err} }()
-			var lr lineRes
-			hang := false
-			select {
-			case lr = <-ch:
-			case <-time.After(hangAfter):
-				hang = true
-			}
+			// No timeout here: a wall-clock limit would turn machine load into a verdict. A helper that really hangs
+			// blocks this worker until the engine's own budget watchdog reports the worker (with this scenario).
+			line, rerr := h.stdout.ReadBytes('\n')
 			var r result
-			if !hang && lr.err == nil && json.Unmarshal(lr.b, &r) == nil {
+			if rerr == nil && json.Unmarshal(line, &r) == nil {
 				if events >= maxEvents {
 					r = result{NotRun: true} // executed by the helper, but beyond the cut-off: not looked at
 				}
@@ -455,14 +418,10 @@ func runJobs(hdr batch, jobs []job) []result {
 				res = append(res, r)
 				continue
 			}
-			// the helper died (or hangs) while executing pending[got]
+			// the helper died while executing pending[got]
 			h.kill()
 			theHelper = nil
-			if hang {
-				r = result{Fatal: "hang", FatalSite: "unknown"}
-			} else {
-				r = classifyFatal(h.stderr.take())
-			}
+			r = classifyFatal(h.stderr.take())
 			if events >= maxEvents {
 				r = result{NotRun: true}
 			}
